@@ -205,10 +205,21 @@ func evaluate(p *Prop, driver string, ops []string, known []knownFinding, res *R
 		execIsolated(p, ops, impl)
 	} else {
 		for i, op := range ops {
+			t1 := time.Now()
 			impl[i] = safeExec(p, op)
+			if d := time.Since(t1); d > 2*time.Second && os.Getenv("VERIF_TIMING") != "" {
+				fmt.Fprintf(os.Stderr, "SLOW impl %v: %s\n", d, clip(op, 150))
+			}
 		}
 	}
+	t2 := time.Now()
 	model, err := runDriver(driver, ops)
+	if os.Getenv("VERIF_TIMING") != "" {
+		fmt.Fprintf(os.Stderr, "driver batch of %d ops: %v\n", len(ops), time.Since(t2))
+		if time.Since(t2) > 5*time.Second {
+			os.WriteFile("/tmp/slowbatch.ops", []byte(strings.Join(ops, "\n")+"\n"), 0o644)
+		}
+	}
 	if err != nil {
 		return err
 	}
